@@ -50,9 +50,12 @@ DenseOK(e) == IF Has(e, "cd")
 Distinct(s) == Cardinality(ToSet(s)) = Len(s)
 NonInc(s) == \A k \in 1..(Len(s) - 1) : NLeq(s[k + 1], s[k])
 
+\* The statement of C12 holds "after any merges or round-trips": on an object restored from an image the clauses of the statement
+\* keep their owner (explicit prefix; without it a rejection on a restored object is attributed to C09 only)
+PN(e, name) == IF Has(e, "restored") THEN "C12:" \o name ELSE name
 \* cheap getters attached to every mutating event, against the model post-state o
 Scalars(e, o) ==
-  /\ Chk("total-weight", e.total = o.total)
+  /\ Chk(PN(e, "total-weight"), e.total = o.total)
   /\ Chk("maximum-error", e.off = o.offset)
   /\ Chk("doc-num-active", e.n = Cardinality(DOMAIN o.cnt))
 
@@ -89,8 +92,8 @@ TNew == IsEvent("New") /\ LET e == Log[l] IN
 TUpdate == IsEvent("Update") /\ LET e == Log[l]
                                     c2 == NewRows(obj[e.id].cnt, e)
                                     n == UpdPost(obj[e.id], e.x, e.w, c2, e.off) IN
-          /\ Chk("bracket", Bracket(n))
-          /\ Chk("epsilon", EpsOK(n))
+          /\ Chk(PN(e, "bracket"), Bracket(n))
+          /\ Chk(PN(e, "epsilon"), EpsOK(n))
           /\ Update(e.id, e.x, e.w, c2, e.off)
           /\ Scalars(e, obj'[e.id])
           /\ Chk("doc-lb-touched", e.lbx = Get(c2, e.x))
@@ -117,8 +120,8 @@ TMerge == IsEvent("Merge") /\ LET e == Log[l]
                                   c2 == NewRows(obj[e.dst].cnt, e)
                                   n == MergePost(obj[e.dst], obj[e.src], c2, e.off) IN
           /\ Chk("total-weight", e.total = n.total)
-          /\ Chk("bracket", Bracket(n))
-          /\ Chk("epsilon", EpsOK(n))
+          /\ Chk(PN(e, "bracket"), Bracket(n))
+          /\ Chk(PN(e, "epsilon"), EpsOK(n))
           /\ Merge(e.dst, e.src, c2, e.off)
           /\ Scalars(e, obj'[e.dst])
           /\ DesignMerge(e, obj[e.dst], obj[e.src], c2)
@@ -174,6 +177,8 @@ TDeser == IsEvent("Deser") /\ LET e == Log[l]  b == blob[e.blob]  rf == RowsFn(e
           \* ground truth of everything offered before the round trip, and its total weight is still the exact sum
           /\ Chk("C12:after-round-trip",
                  /\ e.total = b.st.total
+                 \* the published epsilon (get_epsilon(), logged as lg_max) is the one the error clause is stated for: it survives
+                 /\ e.lgMax = b.st.lgMax
                  /\ \A x \in DOMAIN b.st.truth : IF x \in DOMAIN rf THEN NLeq(rf[x], b.st.truth[x]) /\ NLeq(b.st.truth[x], NAdd(rf[x], e.off))
                                                                      ELSE NLeq(b.st.truth[x], e.off)
                  /\ \A x \in DOMAIN rf : x \in DOMAIN b.st.truth)
